@@ -54,6 +54,12 @@ def generate(rng, tier):
     for fmt, tys in FMTS:
         cases.append(dict(mk(rng, fmt, tys[0], [2, 2, 2], len(cases)), path="/verif/.cache/no_such_dir/x/out.dat", kind="badpath"))
         cases.append(dict(mk(rng, fmt, tys[0], [2, 2, 2], len(cases)), path="/proc/verif_cannot_write.dat", kind="badpath"))
+        # a destination that can be opened but rejects every write (ENOSPC): small outputs stay inside writer buffers,
+        # so the error only surfaces at flush / close time
+        cases.append(dict(mk(rng, fmt, tys[0], [2, 3, 2], len(cases)), path="/dev/full", kind="badpath"))
+        if "tensor" not in fmt:
+            cases.append(dict(mk(rng, fmt, tys[0], [0, 0, 0], len(cases)), path="/dev/full", kind="badpath"))
+            cases.append(dict(mk(rng, fmt, tys[0], [6, 40, 8], len(cases)), path="/dev/full", kind="badpath"))
     return cases
 
 
@@ -181,7 +187,7 @@ def oracle(case, out):
     if case["kind"] == "badpath":
         if out.get("ok"):
             return "%s reported success for unwritable path %s" % (case["fmt"], case["path"])
-        if out.get("file_exists"):
+        if out.get("file_exists") and not case["path"].startswith("/dev/"):
             return "%s failed but left a file at %s" % (case["fmt"], case["path"])
         return None
     if not out.get("ok"):
